@@ -155,6 +155,9 @@ fn check_view(ctx: &mut Ctx, kind: &Kind, size: usize, fbvar: u8, r: Out<View>, 
                     if *off < kind.fixed as i64 || *off as usize + *len > size {
                         ctx.violation(&format!("c05/text-beyond-size/{}/{}", kind.name, seam), || format!("text of a {} tag of size {}: bytes [{}, {}) handed out, the string area is [{}, {})", kind.name, size, off, off + *len as i64, kind.fixed, size));
                     }
+                    if *len > 0 && *off != kind.fixed as i64 {
+                        ctx.violation(&format!("c05/text-start/{}/{}", kind.name, seam), || format!("text of a {} tag of size {}: starts at offset {}, the kind's fixed offset is {}", kind.name, size, off, kind.fixed));
+                    }
                     continue;
                 }
                 if *name == "palette" {
@@ -434,14 +437,14 @@ fn derived(ctx: &mut Ctx, arena: &Arena) {
 fn run(ctx: &mut Ctx) {
     let arena = Arena::new(2);
     let extra = if ctx.quick() { 17 } else { 137 };
-    ctx.bound("sizes", format!("per DST kind: declared size 0..=FIXED+4*ELEM+{} + EDGE32; framebuffer additionally stored palette count 0..=5 and a text-mode variant; the array / blob kinds additionally with all-zero content; tag-level seam (ref_from_slice + cast on a slice flush against a guard page, fills A/B) and region-level seam ([filler][tag][filler][end] through load + typed getter) with three different marker patterns in padding and neighbours", extra));
+    ctx.bound("sizes", format!("per DST kind: declared size 0..=FIXED+4*ELEM+{} + EDGE32; framebuffer additionally stored palette count 0..=5 and a text-mode variant; string kinds additionally with the terminator only in the padding, a letter as first padding byte, and a quoted NUL-terminated text; the array / blob kinds additionally with all-zero content; tag-level seam (ref_from_slice + cast on a slice flush against a guard page, fills A/B) and region-level seam ([filler][tag][filler][end] through load + typed getter) with three different marker patterns in padding and neighbours", extra));
     for kind in KINDS.iter() {
         let top = kind.fixed + 4 * kind.elem + extra;
         let mut szs: Vec<u32> = (0..=top as u32).collect();
         szs.extend(EDGE32.iter().copied().filter(|&e| e as usize > top));
         // string kinds: variant 1 = letters without NUL in the declared part, zero bytes after it (a terminator that
         // exists only in the padding)
-        let fbvars: Vec<u8> = if kind.name == "Framebuffer" { vec![0xFF, 0, 1, 2, 3, 5] } else if matches!(kind.name, "Cmdline" | "BootLoaderName" | "Module") { vec![0, 1, 2] } else { vec![0, 9] };
+        let fbvars: Vec<u8> = if kind.name == "Framebuffer" { vec![0xFF, 0, 1, 2, 3, 5] } else if matches!(kind.name, "Cmdline" | "BootLoaderName" | "Module") { vec![0, 1, 2, 3] } else { vec![0, 9] };
         for &size in &szs {
             for &fbvar in &fbvars {
                 // ---------- tag-level
@@ -451,6 +454,14 @@ fn run(ctx: &mut Ctx) {
                     // variant 2: the first padding byte is a letter, the rest zero
                     for i in kind.fixed..img.len() {
                         img[i] = if i < size as usize { b'a' + (i % 26) as u8 } else if fbvar == 2 && i == size as usize { b'X' } else { 0 };
+                    }
+                    // variant 3: a NUL-terminated text enclosed in double quotes (the text starts at the fixed offset
+                    // whatever its first byte is)
+                    let sz = size as usize;
+                    if fbvar == 3 && sz >= kind.fixed + 3 && sz <= img.len() {
+                        img[kind.fixed] = b'"';
+                        img[sz - 2] = b'"';
+                        img[sz - 1] = 0;
                     }
                 }
                 let describe = || J::obj().set("seam", "tag").set("kind", kind.name).set("declared_size", size).set("stored_palette_count", if fbvar == 0xFF { J::Null } else { J::from(fbvar) }).set("slice", J::hex(&img));
